@@ -16,7 +16,7 @@ from fractions import Fraction
 
 from ..core.tree import AnalysisError
 from ..core.constfold import Folder
-from ..core.astutil import walk_no_nested, call_name, short, src, kwarg
+from ..core.astutil import walk_no_nested, call_name, short, src, kwarg, template_holes, closure, closure_nodes
 from ..engines import regexlang as R
 from ..engines.symeval import (SymEvaluator, Poly, SObj, Raised, Param, SStr, Fmt, SAttr, eval_poly, eval_cond,
                                SNone)
@@ -291,15 +291,13 @@ def emission_template(report, fn, separator_regex, label):
     start, the second from its end."""
     cands = []
     for n in walk_no_nested(fn.node):
-        if isinstance(n, ast.JoinedStr):
-            holes = [v for v in n.values if isinstance(v, ast.FormattedValue)]
-            lits = "".join(v.value for v in n.values if isinstance(v, ast.Constant))
-            if len(holes) >= 2 and re.search(separator_regex, lits):
-                cands.append((n, holes))
+        th = template_holes(n)
+        if th is not None and len(th[1]) >= 2 and re.search(separator_regex, th[0]):
+            cands.append((n, th[1]))
     if len(cands) != 1:
         raise AnalysisError(f"{fn.qualname}: timing template not recognised ({len(cands)} candidates)")
     n, holes = cands[0]
-    (k1, t1), (k2, t2) = which_instant(fn, holes[0].value), which_instant(fn, holes[1].value)
+    (k1, t1), (k2, t2) = which_instant(fn, holes[0]), which_instant(fn, holes[1])
     if k1 is None or k2 is None:
         raise AnalysisError(f"{fn.qualname}: cannot tell which instant a timing hole prints: {t1[:60]} / {t2[:60]}")
     report.check((k1, k2) == ("start", "end"), "R-EMIT", (fn, n), label,
@@ -465,44 +463,60 @@ def emission_rules(ctx, report):
                       "problems": problems}, "4")
 
 
+def _eq_pairs(test):
+    """[(left expr, right expr)] compared for equality by `test` (tuple equality is
+    element-wise; `and` joins), or None when the test is not of that form."""
+    if isinstance(test, ast.BoolOp) and isinstance(test.op, ast.And):
+        out = []
+        for v in test.values:
+            p = _eq_pairs(v)
+            if p is None:
+                return None
+            out += p
+        return out
+    if isinstance(test, ast.Compare) and len(test.ops) == 1 and isinstance(test.ops[0], ast.Eq):
+        l, r = test.left, test.comparators[0]
+        if isinstance(l, ast.Tuple) and isinstance(r, ast.Tuple) and len(l.elts) == len(r.elts):
+            return list(zip(l.elts, r.elts))
+        if isinstance(l, ast.Tuple) or isinstance(r, ast.Tuple):
+            return None
+        return [(l, r)]
+    return None
+
+
 def merge_keys(ctx, report):
     """merging happens only behind an equality test of BOTH start and end of
     two captions (direct attribute reads, no formatting in between)"""
     for path, q in (("pycaption/srt.py", "SRTWriter._recreate_lang"),
                     ("pycaption/base.py", "merge_concurrent_captions")):
-        fn = ctx.index.get_function(path, q)
-        report.covered(fn)
-        env = {}
-        for n in walk_no_nested(fn.node):
-            if isinstance(n, ast.Assign) and len(n.targets) == 1 and isinstance(n.targets[0], ast.Name) \
-                    and isinstance(n.value, ast.Tuple):
-                env[n.targets[0].id] = n.value
+        top = ctx.index.get_function(path, q)
         tests = []
-        for n in walk_no_nested(fn.node):
-            if isinstance(n, ast.If) and isinstance(n.test, ast.Compare) and len(n.test.ops) == 1 \
-                    and isinstance(n.test.ops[0], ast.Eq):
-                l, r = n.test.left, n.test.comparators[0]
-                l = env.get(l.id, l) if isinstance(l, ast.Name) else l
-                r = env.get(r.id, r) if isinstance(r, ast.Name) else r
-                if isinstance(l, ast.Tuple) and isinstance(r, ast.Tuple):
-                    tests.append((n, l, r))
+        for fn in closure(ctx.index, top):
+            report.covered(fn)
+            for n in walk_no_nested(fn.node):
+                if not isinstance(n, (ast.If, ast.While, ast.IfExp)):
+                    continue
+                t = resolve_local(fn, n.test, index=ctx.index)
+                if isinstance(t, ast.UnaryOp) and isinstance(t.op, ast.Not):
+                    continue
+                pairs = _eq_pairs(t)
+                if pairs and any(isinstance(e, ast.Attribute) and ("start" in e.attr or "end" in e.attr)
+                                 and e.attr not in ("append", "extend", "endswith")
+                                 for pr in pairs for e0 in pr for e in ast.walk(e0)):
+                    tests.append((fn, n, pairs, t))
         if len(tests) != 1:
-            report.violation("R-MERGE-KEY", fn, "merge is guarded by one (start, end) == (start, end) test",
-                             {"tuple_equality_tests_found": len(tests),
-                              "why": "captions may be merged only when both their start and their end coincide"}, "5")
-            continue
-        n, l, r = tests[0]
-
-        def shape(t):
-            out = []
-            for e in t.elts:
-                if isinstance(e, ast.Attribute) and e.attr in ("start", "end"):
-                    out.append((src(e.value), e.attr))
-                else:
-                    out.append((src(e), None))
-            return out
-        sl, sr = shape(l), shape(r)
-        ok = [a for _, a in sl] == ["start", "end"] and [a for _, a in sr] == ["start", "end"] \
-            and len({o for o, _ in sl}) == 1 and len({o for o, _ in sr}) == 1 and sl[0][0] != sr[0][0]
+            raise AnalysisError(f"{q}: expected one equality test of caption times guarding the merge, "
+                                f"found {len(tests)}")
+        fn, n, pairs, t = tests[0]
+        shape = []
+        for l, r in pairs:
+            la = (src(l.value), l.attr) if isinstance(l, ast.Attribute) else (src(l), None)
+            ra = (src(r.value), r.attr) if isinstance(r, ast.Attribute) else (src(r), None)
+            shape.append((la, ra))
+        attrs = sorted((la[1], ra[1]) for la, ra in shape)
+        ok = attrs == [("end", "end"), ("start", "start")] \
+            and len({la[0] for la, _ in shape}) == 1 and len({ra[0] for _, ra in shape}) == 1 \
+            and shape[0][0][0] != shape[0][1][0]
         report.check(ok, "R-MERGE-KEY", (fn, n), "merge key is (start, end) of both captions, compared as numbers",
-                     {"left": src(l), "right": src(r)}, "5")
+                     {"test_after_resolving_locals_and_helpers": src(t)[:200],
+                      "why": "captions may be merged only when both their start and their end coincide"}, "5")
